@@ -1,0 +1,74 @@
+//go:build verif
+
+package gofakes3
+
+import "github.com/johannesboyne/gofakes3/internal/verifhook"
+
+// VerifSetHook installs the function called at every verifhook point. Only
+// available in builds with the "verif" tag.
+func VerifSetHook(fn func(point string)) { verifhook.Set(fn) }
+
+// VerifUploaderInvariants walks the in-memory multipart bookkeeping under its
+// own lock and returns a description of every broken structural invariant.
+func (g *GoFakeS3) VerifUploaderInvariants() (broken []string) {
+	u, ok := g.uploader.(*uploader)
+	if !ok {
+		return nil
+	}
+	u.mu.Lock()
+	defer u.mu.Unlock()
+	for bucket, bu := range u.buckets {
+		indexed := map[UploadID]int{}
+		for it := bu.objectIndex.Iterator(); it.Next(); {
+			key := it.Key().(string)
+			list := it.Value().([]*multipartUpload)
+			if len(list) == 0 {
+				broken = append(broken, "bucket "+bucket+": empty upload list indexed under key "+key)
+			}
+			for _, mpu := range list {
+				indexed[mpu.ID]++
+				if mpu.Object != key {
+					broken = append(broken, "bucket "+bucket+": upload "+string(mpu.ID)+" for "+mpu.Object+" indexed under "+key)
+				}
+				if bu.uploads[mpu.ID] != mpu {
+					broken = append(broken, "bucket "+bucket+": upload "+string(mpu.ID)+" is indexed but not in the uploads map")
+				}
+			}
+		}
+		for id, mpu := range bu.uploads {
+			if indexed[id] != 1 {
+				broken = append(broken, "bucket "+bucket+": upload "+string(id)+" is in the uploads map but indexed "+itoa(indexed[id])+" times")
+			}
+			if mpu.Bucket != bucket {
+				broken = append(broken, "bucket "+bucket+": upload "+string(id)+" claims bucket "+mpu.Bucket)
+			}
+			mpu.mu.Lock()
+			for i, p := range mpu.parts {
+				if p != nil && p.PartNumber != i {
+					broken = append(broken, "upload "+string(id)+": part at index "+itoa(i)+" has number "+itoa(p.PartNumber))
+				}
+			}
+			mpu.mu.Unlock()
+		}
+	}
+	return broken
+}
+
+func itoa(i int) string {
+	if i == 0 {
+		return "0"
+	}
+	neg := i < 0
+	if neg {
+		i = -i
+	}
+	var b []byte
+	for i > 0 {
+		b = append([]byte{byte('0' + i%10)}, b...)
+		i /= 10
+	}
+	if neg {
+		b = append([]byte{'-'}, b...)
+	}
+	return string(b)
+}
